@@ -4,6 +4,7 @@ import (
 	"fmt"
 	"go/token"
 	"go/types"
+	"sort"
 	"strings"
 
 	"golang.org/x/tools/go/ssa"
@@ -23,6 +24,7 @@ func checkC04(rep *core.Report) {
 	r3 := rep.Rule("R04.3", "decode sites pass the set's own id / the parsed record's own id and the datagram's exporter", 6)
 	r4 := rep.Rule("R04.4", "insert overwrites unconditionally and immediately after a successful template parse", 4)
 	r5 := rep.Rule("R04.5", "unknown template => error set, record decoding unreachable", 2)
+	r6 := rep.Rule("R04.6", "a data record is decoded with the result of this set's own lookup, never with a remembered template", 2)
 	for _, rel := range []string{"ipfix", "netflow/v9"} {
 		c := findTplCache(prog, rel)
 		if c.shardT == nil || c.insert == nil || c.retrieve == nil || c.getShard == nil {
@@ -165,6 +167,7 @@ func checkC04(rep *core.Report) {
 			continue
 		}
 		checkDecodeSites(prog, r3, r4, r5, c, sd)
+		checkTemplateProvenance(prog, r6, c, sd)
 		// insert stores unconditionally
 		var upd *ssa.MapUpdate
 		allInstrs(c.insert, func(ins ssa.Instruction) {
@@ -407,5 +410,88 @@ func checkRPCInsert(prog *core.Program, r3 *core.RuleRun) {
 			}
 		}
 		r3.Check(okReq && okReply, name+":peer-insert", cs.Instr.Pos(), "peer reply inserted under the requesting (id, address)", "a template fetched from a peer is cached under an id/address other than the request's")
+	}
+}
+
+// checkTemplateProvenance (R04.6): the template argument of every record-decoding call in the set decoder is,
+// on every path, the record returned by the lookup made for this set (or the zero record on paths where no
+// lookup applies, which R04.5 shows cannot reach record decoding without an error). A template kept from an
+// earlier set, message or decoder field would survive a re-announcement.
+func checkTemplateProvenance(prog *core.Program, r6 *core.RuleRun, c *tplCache, sd *setDecoder) {
+	fn := sd.decodeSet
+	name := core.FuncName(fn)
+	var leaves func(v ssa.Value, seen map[ssa.Value]bool, out map[string]token.Pos)
+	leaves = func(v ssa.Value, seen map[ssa.Value]bool, out map[string]token.Pos) {
+		if seen[v] {
+			return
+		}
+		seen[v] = true
+		switch x := v.(type) {
+		case *ssa.Phi:
+			for _, e := range x.Edges {
+				leaves(e, seen, out)
+			}
+			return
+		case *ssa.Const:
+			out["zero"] = token.NoPos
+			return
+		case *ssa.Extract:
+			if call, ok := x.Tuple.(*ssa.Call); ok && call.Common().StaticCallee() == c.retrieve && x.Index == 0 && call.Parent() == fn {
+				out["lookup"] = call.Pos()
+				return
+			}
+		case *ssa.UnOp:
+			if x.Op == token.MUL {
+				if a, ok := x.X.(*ssa.Alloc); ok {
+					out["zero"] = token.NoPos
+					for _, sv := range core.StoresTo(a) {
+						leaves(sv, seen, out)
+					}
+					return
+				}
+			}
+		case *ssa.ChangeType:
+			leaves(x.X, seen, out)
+			return
+		}
+		out["other: "+describeVal(v)] = v.Pos()
+	}
+	n := 0
+	allInstrs(fn, func(ins ssa.Instruction) {
+		call, ok := ins.(*ssa.Call)
+		if !ok || call.Common().StaticCallee() != sd.decodeDat {
+			return
+		}
+		n++
+		var tplArg ssa.Value
+		for _, a := range call.Common().Args[1:] {
+			if _, isStruct := a.Type().Underlying().(*types.Struct); isStruct {
+				tplArg = a
+			} else if p, isPtr := a.Type().Underlying().(*types.Pointer); isPtr {
+				if _, isStruct := p.Elem().Underlying().(*types.Struct); isStruct {
+					tplArg = a
+				}
+			}
+		}
+		key := fmt.Sprintf("%s:record-template#%d", name, n)
+		if tplArg == nil {
+			r6.Undecided(key, call.Pos(), "the record decoder takes no template argument")
+			return
+		}
+		out := map[string]token.Pos{}
+		leaves(tplArg, map[ssa.Value]bool{}, out)
+		var bad []string
+		for k := range out {
+			if strings.HasPrefix(k, "other") {
+				bad = append(bad, strings.TrimPrefix(k, "other: "))
+			}
+		}
+		sort.Strings(bad)
+		_, hasLookup := out["lookup"]
+		r6.Check(len(bad) == 0 && hasLookup, key, call.Pos(), "template comes only from this set's lookup",
+			fmt.Sprintf("the template used to decode a record can come from %s rather than from the lookup made for this set: a template re-announced earlier in the same message (or by another path) is not seen and the data is decoded with the superseded definition", strings.Join(bad, ", ")))
+	})
+	if n == 0 {
+		r6.Undecided(name+":record-template", fn.Pos(), "no record decoding call found in the set decoder")
 	}
 }
